@@ -1,4 +1,5 @@
 from .common import *
+from . import c08
 
 def run(tier):
     r = Run('C05', tier)
@@ -19,6 +20,9 @@ def run(tier):
                          defines=['H_NONINTERFERENCE', 'OFF=%d' % o, 'FLEN=%d' % flen, 'THREADS=1', 'HTFIX=%d' % ht, 'SREF_MSGMAX=%d' % (flen + 8), 'GHOST_MAX=2048'] + ([] if alt is None else ['ALTFIX=%d' % alt]),
                          unwind=400, timeout=T, envs=KERN_ENVS, replay_units=[ureal], replay_envs=NATIVE_FILE_ENVS, cbmc_extra=['--max-field-sensitivity-array-size', '256'],
                          known_key=('header-offset=8' if o == 8 else None)))
+    # the full-length tag comparison itself (shared with C08): accepts iff every tag byte matches, for all tag fields; replayable on the real hash
+    for ht_ in (0, 1, 2):
+        c08.cmp_obligations(r, tier, ht_, prefix='tag-')
     r.bounds = ['L3: files of %d bytes (header, one IV, 32-byte body), T=1, every header offset 0..47, all contents/keys/replacement bytes' % flen]
     r.outside = ['A-MAC (cryptographic): modifications of [48,EOF) (bit flips in IVs/body, truncation, extension, chunk swaps) change the MAC input and are rejected; the solver part is that the tag covers exactly [48,EOF) and is compared in full (C08 + gate)',
                  'bytes 10+hlen..47 and a flipped hash-mode byte that still verifies carry no information: both files decrypt to the same plaintext']
@@ -27,4 +31,4 @@ def run(tier):
     return r.finish()
 
 def replay(rp):
-    return generic_replay(rp, {'kern_gate': U_kern, 'kern': U_kern})
+    return generic_replay(rp, {'kern_gate': U_kern, 'kern_ufh': U_kern, 'kern': U_kern})
